@@ -178,14 +178,24 @@ def cases(rng, tier):
         yield {"bytes": bs}
 
 
+# `safely_quote(s, safe=…)`: the value `safely_quote_qsl` passes (FX-C01-PLUS), the empty one, one with
+# delimiters, a non-ASCII character (ignored by urllib's quote) and the escape sign itself
+SAFES = ["/+", "", "&=+;", "é/", "%+"]
+
+
 def ops(case):
     if "bytes" in case:
         return [{"f": "utf8seg", "bytes": case["bytes"]}]
     s = case["s"]
     base = [{"f": "quote", "fn": fn, "s": s} for fn in FNS] + [{"f": "pct", "s": s}]
+    base.append({"f": "quote", "fn": "safely_quote", "s": s, "safe": SAFES[0]})
     if case.get("lite"):
         return base
-    return base + [{"f": "chains", "s": s}, {"f": "qsl", "s": s}]
+    return (
+        base
+        + [{"f": "quote", "fn": "safely_quote", "s": s, "safe": x} for x in SAFES[1:]]
+        + [{"f": "chains", "s": s}, {"f": "qsl", "s": s}]
+    )
 
 
 UNQUOTERS = FNS[1:5]
@@ -242,9 +252,14 @@ def impl(case):
         return [out]
     s = case["s"]
     base = [lib.guarded(_fn(fn), s) for fn in FNS] + [list(unquote_to_bytes(s))]
+    base.append(lib.guarded(_fn("safely_quote"), s, safe=SAFES[0]))
     if case.get("lite"):
         return base
-    return base + [lib.guarded(_chains, s), lib.guarded(_qsl, s)]
+    return (
+        base
+        + [lib.guarded(_fn("safely_quote"), s, safe=x) for x in SAFES[1:]]
+        + [lib.guarded(_chains, s), lib.guarded(_qsl, s)]
+    )
 
 
 def canon(op, out):
@@ -257,10 +272,15 @@ def canon(op, out):
 # oracle: the Reading of C14 (DESIGN §6), on the implementation only
 # ---------------------------------------------------------------------------------------
 ESC = re.compile(r"%[0-9A-Fa-f]{2}")
+# the characters that delimit / have a meaning of their own in each component (the reading of "delimits
+# its component", design.d/C14.md): what the URL parser and ural's own query splitter cut at, and for a
+# query item the '+' (a space in a query, while %2B is a plus sign: FX-C01-PLUS).  Path parameters (';',
+# '=' and ',' inside a segment, RFC 3986 3.3) are NOT in the list: ural has no notion of them (it parses
+# with urlsplit, not urlparse) and unescapes %3B in a path like any other sub-delimiter (ASSUMPTIONS)
 DELIMS = {
     "safely_unquote_auth_item": "@:/?#",
     "safely_unquote_path": "/?#",
-    "safely_unquote_query_item": "&=#",
+    "safely_unquote_query_item": "&=#+",
     "safely_unquote_fragment": "",
 }
 UNRESERVED = set("ABCDEFGHIJKLMNOPQRSTUVWXYZabcdefghijklmnopqrstuvwxyz0123456789-._~")
@@ -300,6 +320,22 @@ def oracle(case):
         qq = _fn("safely_quote")(q)
         if qq != q:
             return "safely_quote not idempotent on %r: %r then %r" % (s, q, qq)
+        # the quoting step of query items (safely_quote_qsl = safely_quote(item, safe="/+")): the same contract,
+        # and a raw '+' stays raw (it is a space there, %2B a plus sign)
+        (k2, v2), = _fn("safely_quote_qsl")([(s, s)])
+        for what, q2 in (("key", k2), ("value", v2)):
+            if not q2.isascii() or pct(q2) != pct(s):
+                return "safely_quote_qsl: %s %r -> %r is not ASCII or decodes differently" % (what, s, q2)
+            it = iter(ESC.findall(q2))
+            if not all(any(e == f for f in it) for e in es):
+                return "safely_quote_qsl: %s %r -> %r does not keep every escape as is" % (what, s, q2)
+            if raw_text(q2).count("+") != raw_text(s).count("+"):
+                return "safely_quote_qsl: %s %r -> %r changes the number of raw '+' (a space in a query; %%2B is a plus sign)" % (what, s, q2)
+            for c in raw_text(q2):
+                if c != "\x00" and c not in UNRESERVED and c not in "/+":
+                    return "safely_quote_qsl: %s %r -> %r leaves %r raw" % (what, s, q2, c)
+            if _fn("safely_quote_qsl")([(q2, q2)]) != [(q2, q2)]:
+                return "safely_quote_qsl not idempotent on %s %r" % (what, s)
         for fn, delims in DELIMS.items():
             f = _fn(fn)
             r = f(s)
